@@ -479,6 +479,14 @@ impl NamingActor {
             instance.from_cluster = 0;
             instance.client_id = EMPTY_ARC_STRING.clone();
         }
+        if from_sync && self.node_id > 0 && instance.from_cluster == self.node_id {
+            // a peer hands back an instance that this node holds itself (a console update applied
+            // on the owner of the service): its values change, the node that holds it does not
+            let own = self.get_instance(key, &instance.get_short_key());
+            if own.map(|e| !e.is_from_cluster()).unwrap_or(false) {
+                instance.from_cluster = 0;
+            }
+        }
         //let cluster_name = instance.cluster_name.clone();
         let service = if let Some(service) = self.service_map.get_mut(key) {
             service
